@@ -23,6 +23,7 @@ type c11Case struct {
 	Family string
 	Order  string
 	Lat    []int64 // latencies in arrival order (ns)
+	Closes []int   // Close() is also called after this many additions (periodic reporting)
 }
 
 type c11Finding struct {
@@ -57,8 +58,18 @@ func evalC11(c c11Case) ([]c11Finding, error) {
 		return nil, fmt.Errorf("empty case")
 	}
 	var m vegeta.Metrics
-	for _, l := range c.Lat {
+	closes := map[int]bool{}
+	for _, p := range c.Closes {
+		closes[p] = true
+	}
+	if closes[0] {
+		m.Close()
+	}
+	for i, l := range c.Lat {
 		m.Add(&vegeta.Result{Latency: time.Duration(l), Code: 200, Timestamp: time.Unix(1, 0)})
+		if closes[i+1] {
+			m.Close()
+		}
 	}
 	m.Close()
 	sorted := append([]int64(nil), c.Lat...)
@@ -263,6 +274,12 @@ func c11Gen(t *rapid.T, maxN int) c11Case {
 		}
 		c.Lat = out
 	}
+	if rapid.IntRange(0, 2).Draw(t, "periodic") == 0 {
+		k := rapid.IntRange(1, 4).Draw(t, "ncloses")
+		for i := 0; i < k; i++ {
+			c.Closes = append(c.Closes, rapid.IntRange(0, n).Draw(t, fmt.Sprintf("close%d", i)))
+		}
+	}
 	return c
 }
 
@@ -275,7 +292,7 @@ func c11Sig(c c11Case) string {
 		}
 		h.Write(b[:])
 	}
-	return fmt.Sprintf("%s/%s/%d/%x", c.Family, c.Order, len(c.Lat), h.Sum64())
+	return fmt.Sprintf("%s/%s/%d/%x/%v", c.Family, c.Order, len(c.Lat), h.Sum64(), c.Closes)
 }
 
 func c11Run(t *rapid.T, c c11Case) {
@@ -286,7 +303,11 @@ func c11Run(t *rapid.T, c c11Case) {
 		}
 	}
 	nt := len(c.Lat) >= 200 && len(distinct) >= 3
-	vh.Case("C11.percentiles", c11Sig(c), nt, c.Family, "order:"+c.Order)
+	lab := "closed-once"
+	if len(c.Closes) > 0 {
+		lab = "intermediate-closes"
+	}
+	vh.Case("C11.percentiles", c11Sig(c), nt, c.Family, "order:"+c.Order, lab)
 	if len(c.Lat) <= 12 {
 		vh.Sample("C11.percentiles", false, c)
 	} else {
